@@ -1,6 +1,6 @@
 #!/bin/bash
 # usage: mut.sh <patch-file> <check id>... : applies a patch to /repo, runs the quick checks, reverts.
-P=$1; shift
+P=$(realpath "$1"); shift
 git -C /repo apply "$P" || { echo "patch does not apply"; exit 2; }
 for c in "$@"; do
   echo "== $c on $(basename $P)"; /verif/check $c quick 2>&1 | grep -E "^(VIOLATION|KNOWN|C[0-9]+ tier|INTERNAL|BUILD)" | head -8
